@@ -1,8 +1,8 @@
 SPECIFICATION Spec
 CONSTANTS
-  Calls <- CoreMethods
+  Calls <- ReplugMethods
   MaxCalls = 3
-  MaxFaults = 2
+  MaxFaults = 0
   RetryMax = 25
   Bursts <- Burst2
   Devices <- AllDevices
@@ -14,8 +14,6 @@ CONSTANTS
   FixQC = TRUE
   FixConnect = TRUE
   FixStale = TRUE
-  MaxReplug = 0
-VIEW core
-PROPERTY Implements
-PROPERTY AbsLatched
+  MaxReplug = 1
 CHECK_DEADLOCK FALSE
+INVARIANT NoRaise
